@@ -2,6 +2,7 @@ package syncx_test
 
 import (
 	"fmt"
+	"math"
 	"testing"
 	"time"
 
@@ -20,6 +21,39 @@ import (
 // Every successful borrow is returned by its goroutine, so a blocked Borrow
 // always gets its turn and no case can deadlock.
 // ---------------------------------------------------------------------------
+
+// c18Timeout of a timed borrow: A milliseconds, or (E != 0) one of the extreme
+// but legal values: "wait for ever" idioms and values next to the overflow
+// boundaries of int64 nanosecond arithmetic. Inside the bubble they do not
+// expire within the case unless every goroutine is blocked for good.
+func c18Timeout(op c18Op) time.Duration {
+	switch op.E {
+	case 1:
+		return time.Duration(math.MaxInt64)
+	case 2:
+		return time.Duration(math.MaxInt64) - time.Millisecond
+	case 3:
+		return time.Duration(math.MaxInt64 / 2)
+	case 4:
+		return time.Duration(1<<62 + 1)
+	case 5:
+		return time.Duration(1<<62 - 1)
+	case 6:
+		return 100 * 365 * 24 * time.Hour
+	case 7:
+		return time.Duration(math.MaxInt64) - time.Duration(rand18(op))
+	}
+	return time.Duration(op.A) * c18ms
+}
+
+// rand18: a small slack derived from the op itself (pure function of the case)
+func rand18(op c18Op) int64 { return int64(op.A*1000 + op.H + 1) }
+
+// c18EndOfTime: virtual instant (since the start of a case, 2000-01-01) at which
+// the runtime's timers saturate (int64 nanoseconds since 1970). A case whose
+// clock got there (an extreme borrow whose wake-up was lost waited "for ever")
+// is not judged: durations can no longer be measured.
+const c18EndOfTime = time.Duration(math.MaxInt64-946684800*1000000000) - time.Hour
 
 type c18Limiter interface {
 	TryBorrow() bool
@@ -73,7 +107,7 @@ func c18LimitInterp(t *testing.T, c c18Case, timed bool) kit.Verdict {
 				ev := c18Ev{G: g, I: i, Op: op, Sub: "borrow"}
 				ev.Inv = clk.now()
 				if timed {
-					err := tls[op.M].Borrow(time.Duration(op.A) * c18ms)
+					err := tls[op.M].Borrow(c18Timeout(op))
 					ev.OK = err == nil
 					if err != nil && err != syncx.ErrTimeout {
 						ev.Err = -1
@@ -102,6 +136,14 @@ func c18LimitInterp(t *testing.T, c c18Case, timed bool) kit.Verdict {
 		}, nil
 	})
 
+	for _, ev := range full.evs {
+		if ev.Ret.T >= c18EndOfTime {
+			out := v.done(kit.BubbleResult{})
+			out.Excluded, out.Fail, out.NonTrivial = true, "", false
+			out.Classes = append(out.Classes, "clock-reached-end-of-time(excluded)")
+			return out
+		}
+	}
 	// every instance is judged on its own history against its own limit
 	for inst := 0; inst < c18Inst; inst++ {
 	log := full.inst(inst)
@@ -180,7 +222,13 @@ func c18LimitInterp(t *testing.T, c c18Case, timed bool) kit.Verdict {
 				v.nt = true
 			}
 			if timed {
-				to := time.Duration(ev.Op.A) * c18ms
+				to := c18Timeout(ev.Op)
+				if ev.Op.E != 0 {
+					v.class("extreme-timeout")
+					if waited > 0 && ev.OK {
+						v.class("extreme-timeout-borrow-blocked-then-woken")
+					}
+				}
 				if !ev.OK {
 					v.class("timeout")
 					if waited < to {
@@ -277,7 +325,7 @@ func c18JudgeWakeup(v *c18V, log *c18Log, c c18Case) {
 			if newcomers == 0 {
 				v.class("wakeup-decidable-instant")
 				if returns >= waiting {
-					v.failf("timeout-limit(%d): Borrow g%d#%d(timeout %dms) waited from t=%v and timed out at t=%v although at t=%v %d Return(s) succeeded with only %d timed borrow(s) waiting and no other borrower arriving", c.N, w.G, w.I, w.Op.A, w.Inv.T, w.Ret.T, t, returns, waiting)
+					v.failf("timeout-limit(%d): Borrow g%d#%d(timeout %v) waited from t=%v and timed out at t=%v although at t=%v %d Return(s) succeeded with only %d timed borrow(s) waiting and no other borrower arriving", c.N, w.G, w.I, c18Timeout(w.Op), w.Inv.T, w.Ret.T, t, returns, waiting)
 				}
 			}
 		}
@@ -297,6 +345,9 @@ func c18LimitGen(timed bool) func(rt *rapid.T) c18Case {
 			}
 			if timed && op.K == "borrow" {
 				op.A = rapid.SampledFrom([]int{0, 1, 2, 2, 3, 4, 5, 8}).Draw(rt, "timeout")
+				if rapid.IntRange(0, 5).Draw(rt, "extreme") == 0 {
+					op.E = rapid.IntRange(1, 7).Draw(rt, "extremeKind")
+				}
 			}
 			return op
 		})
@@ -306,11 +357,11 @@ func c18LimitGen(timed bool) func(rt *rapid.T) c18Case {
 }
 
 func TestVerif_C18_limit(t *testing.T) {
-	kit.Run(t, c18ID, "limit", kit.Opts{Quick: 6000, Thorough: 240000}, c18LimitGen(false),
+	kit.Run(t, c18ID, "limit", kit.Opts{Quick: 6000, Thorough: 200000}, c18LimitGen(false),
 		func(c c18Case) kit.Verdict { return c18LimitInterp(t, c, false) })
 }
 
 func TestVerif_C18_timeoutlimit(t *testing.T) {
-	kit.Run(t, c18ID, "timeoutlimit", kit.Opts{Quick: 6000, Thorough: 240000}, c18LimitGen(true),
+	kit.Run(t, c18ID, "timeoutlimit", kit.Opts{Quick: 6000, Thorough: 200000}, c18LimitGen(true),
 		func(c c18Case) kit.Verdict { return c18LimitInterp(t, c, true) })
 }
